@@ -122,12 +122,12 @@ def run(ctx):
     r = ctx.tlc("PlayQueueImpl")
     mc_states = r.distinct
     ctx.log("PlayQueueImpl.tla (c.mu respected): %d distinct states, invariants hold" % r.distinct)
-    nonvac = []
-    for cfg in ("PlayQueueImpl_unlocked.cfg", "PlayQueueImpl_unlocked2.cfg"):
-        r = ctx.tlc("PlayQueueImpl", cfg, allow_violation=True, count=False)
-        if not r.violated:
-            raise vlib.ToolError("lock-agnostic PlayQueueImpl (%s) finds no violation: invariants vacuous" % cfg)
-        nonvac.append(r.violated)
+    r = ctx.tlc("PlayQueueImpl", "PlayQueueImpl_unlocked.cfg", allow_violation=True, count=False,
+                extra=["-continue"])
+    nonvac = [inv for inv in ("NoStranded", "NoSpuriousClose", "NoLossNoDup")
+              if "Invariant %s is violated" % inv in r.out]
+    if "NoStranded" not in nonvac or "NoSpuriousClose" not in nonvac:
+        raise vlib.ToolError("lock-agnostic PlayQueueImpl violates only %s: invariants vacuous" % nonvac)
     ctx.log("PlayQueueImpl.tla (lock ignored): violates %s (non-vacuity ok)" % ", ".join(nonvac))
 
     rnd = random.Random(ctx.seed)
@@ -135,9 +135,9 @@ def run(ctx):
     n_enum = len(base)
     rnd.shuffle(base)
     if ctx.quick:
-        scheds = base[:260]
+        scheds = base[:220]
         big = ctx.tlc("PlayQueueImpl", "PlayQueueImpl_sched22.cfg", workers=1, count=False,
-                      simulate=60, depth=14).printed_json("SCHED")
+                      simulate=40, depth=14).printed_json("SCHED")
     else:
         scheds = base
         big = ctx.tlc("PlayQueueImpl", "PlayQueueImpl_sched22.cfg", workers=1, count=False,
